@@ -67,6 +67,8 @@ WITNESS = [
     'function mk(i){ return {v:i} } let a = []; for (let i = 0; i < 40; i++) { a.push(mk(i)); } let s = 0; for (const o of a) s += o.v; s',
     'let o = {x:{y:{z:7}}}; function f(p){ const t = {k:p}; return t.k.x.y.z } let r = 0; for (let i = 0; i < 30; i++) r += f(o); r',
     'async function f(){ const o = {v: 5}; const w = await Promise.resolve({q: 2}); return o.v + w.q } await f()',
+    # an outer frame holds an object only in a register across a call that suspends
+    'function mk(){ return {tag: "fresh"} } function pair(a, b){ return a.tag + ":" + b } async function g(){ const v = await Promise.resolve("v"); return v + "!" } async function main(){ return pair(mk(), await g()) } await main()',
 ]
 
 
@@ -130,7 +132,16 @@ def run(rep):
     st.assume(z3.ULT(envd, 2))
     envo = Opaque('Gc<JsObject>', z3.Int('$cfenv'))
     cf = Agg('struct', 'CallFrame', {CF['saved_env']: EnumV('Option<Gc<JsObject>>', envd, {1: {0: envo}})}, lazy=True, nm='$cf')
-    state = Agg('struct', 'SavedVmState', {S['registers']: VecV([r0], 'JsValue'), S['frames']: VecV([cf], 'CallFrame'), S['trampoline_stack']: VecV(()),
+    # one suspended outer frame: its registers must end up on the guard that frame itself will own after the callee returns
+    SF = {n: i for i, n in enumerate(ex.src.structs['SavedTrampolineFrame'])}
+    TF = {n: i for i, n in enumerate(ex.src.structs['TrampolineFrame'])}
+    tr0 = jsv(st, 'tr0')
+    tthis = jsv(st, 'tthis')
+    sframe = Agg('struct', 'SavedTrampolineFrame', {SF['registers']: VecV([tr0], 'JsValue'), SF['this_value']: tthis, SF['saved_env_stack']: VecV((), 'Gc<JsObject>'),
+                                                    SF['saved_interp_env']: Opaque('Gc<JsObject>', z3.Int('$tenv')),
+                                                    SF['current_constructor']: EnumV('Option<Gc<JsObject>>', 0, {}), SF['vm_call_stack']: VecV(()),
+                                                    SF['try_stack']: VecV(()), SF['arguments']: VecV(())}, lazy=True, nm='$sframe')
+    state = Agg('struct', 'SavedVmState', {S['registers']: VecV([r0], 'JsValue'), S['frames']: VecV([cf], 'CallFrame'), S['trampoline_stack']: VecV([sframe], 'SavedTrampolineFrame'),
                                            S['try_stack']: VecV(()), S['arguments']: VecV(())}, lazy=True, nm='$saved')
     g2 = Opaque('Guard<JsObject>', z3.Int('$new_guard'))
     heap = st.alloc(Opaque('Heap<JsObject>'))
@@ -149,6 +160,19 @@ def run(rep):
             decide(rep, ex, cross, e, 'from_saved_state path %d: saved environments of call frames are on the VM\'s guard' % k,
                    z3.Implies(envd == 1, guarded(envo.id)), 'one call frame', 'C02/from_saved_state/frame-env-not-guarded', WITNESS)
             vmv = e.value
+            ts = vmv.fields.get(V['trampoline_stack'])
+            fg = None
+            if isinstance(ts, VecV) and len(ts.items) == 1 and isinstance(ts.items[0], Agg):
+                fg = ts.items[0].fields.get(TF['register_guard'])
+            if not isinstance(fg, Opaque):
+                rep.inconc('from_saved_state path %d: the restored trampoline frame has no guard token (%r)' % (k, ts))
+            else:
+                on_frame = z3.Or([z3.And(ev[1].id == fg.id, ev[2].id == obj_id(tr0)) for ev in guards] + [z3.BoolVal(False)])
+                decide(rep, ex, cross, e, 'from_saved_state path %d: every object in an outer frame\'s registers is on the guard that frame owns (and that guard is not the innermost VM\'s)' % k,
+                       z3.And(z3.BoolVal(not fg.id.eq(g2.id)), z3.Implies(z3.And(fg.id != g2.id, is_obj(tr0)), on_frame)), 'one outer frame, one register; a guard created by Heap::create_guard is distinct from the guard passed in', 'C02/from_saved_state/outer-frame-register-not-on-its-guard', WITNESS)
+                decide(rep, ex, cross, e, 'from_saved_state path %d: an outer frame\'s this is guarded while the callee runs' % k,
+                       z3.Implies(z3.And(fg.id != g2.id, is_obj(tthis)), z3.Or(guarded(obj_id(tthis)), z3.Or([z3.And(ev[1].id == fg.id, ev[2].id == obj_id(tthis)) for ev in guards] + [z3.BoolVal(False)]))),
+                       'one outer frame', 'C02/from_saved_state/outer-frame-this-not-guarded', WITNESS)
             decide(rep, ex, cross, e, 'from_saved_state path %d: the VM owns the guard it was given' % k,
                    z3.BoolVal(isinstance(vmv.fields.get(V['register_guard']), Opaque)) if not isinstance(vmv.fields.get(V['register_guard']), Opaque)
                    else vmv.fields[V['register_guard']].id == g2.id, '-', 'C02/from_saved_state/guard-not-owned', WITNESS)
